@@ -216,9 +216,12 @@ def obs_c09(c: Ctx, *, D):
             subsets += [list(x) for x in itertools.combinations(ids, r)]
     else:
         subsets = [[], ids, ids[::2], ids[1::2], ids[:1], ids[-1:]]
-    for M in subsets:
+    TRUTHY = [(True, False), (1, 0), ("yes", ""), (re.compile("x").match("x"), None), ([0], [])]
+    for mi, M in enumerate(subsets):
         ms = set(M)
-        pred = lambda node, ms=ms: c.nid(node) in ms  # noqa: E731
+        # a predicate answers "match" with any truthy value (re.search(...), a count, ...): the forms rotate
+        yes, no = TRUTHY[mi % len(TRUTHY)]
+        pred = lambda node, ms=ms, yes=yes, no=no: yes if c.nid(node) in ms else no  # noqa: E731
         for s in starts:
             for self_ in ((False,) if s == 0 else (False, True)):
                 for k in [0] + list(range(1, n + 2)):
@@ -251,6 +254,8 @@ def obs_c09(c: Ctx, *, D):
         out.append({"q": "getitem", "a": {"key": {"t": "data", "v": d}}, "r": call(lambda d=d: tree[fl.data(d)], c.nid)})
     for md in sorted(set(st["did"]) | {12}):
         rd = fl.real_did(md)
+        if md not in st["did"] and isinstance(rd, str) and any(fl.real_did(x) == hash(rd) for x in st["did"]):
+            continue    # (an absent str key is then looked up as DATA: hash("") = 0 is the explicit id of another node)
         if isinstance(rd, (int, str)) and not isinstance(rd, bool):
             out.append({"q": "getitem", "a": {"key": {"t": "did", "v": md}}, "r": call(lambda rd=rd: tree[rd], c.nid)})
     for i in ids:
